@@ -15,6 +15,13 @@ import ast
 
 def compile_spec(s):
     """-> source text of the pfst pattern"""
+    if 'backref' in s:
+        return f'MTAG({s["backref"]!r})'
+    if 'q' in s:
+        name = {'star': 'MQSTAR', 'plus': 'MQPLUS', 'opt': 'MQOPT'}[s['q']] + ('' if s.get('greedy', True) else '.NG')
+        sub = s['sub']
+        inner = '[' + ', '.join(compile_spec(x) for x in sub) + ']' if isinstance(sub, list) else compile_spec(sub)
+        return f'{name}({s["tag"]}={inner})' if s.get('tag') else f'{name}({inner})'
     if 'and' in s:
         inner = 'MAND(' + ', '.join(compile_spec(x) for x in s['and']) + ')'
     elif 'or' in s:
@@ -38,55 +45,104 @@ def _field(v):
     return repr(v)
 
 
-def mini(s, node):
-    """-> {tag: node} or None"""
-    if 'and' in s:
-        tags = {}
-        for x in s['and']:
-            m = mini(x, node)
-            if m is None:
-                return None
-            tags.update(m)
-    elif 'or' in s:
-        tags = None
-        for x in s['or']:
-            tags = mini(x, node)
-            if tags is not None:
+def _same(a, b):
+    """back-reference equality: structure, expression contexts ignored (match(ctx=False))"""
+    import copy
+    def d(n):
+        n = copy.deepcopy(n)
+        for x in ast.walk(n):
+            if hasattr(x, 'ctx'):
+                x.ctx = ast.Load()
+        return ast.dump(n)
+    return isinstance(a, ast.AST) and isinstance(b, ast.AST) and d(a) == d(b)
+
+
+def _match_list(items, i, tgt, j, env):
+    """all ways the list pattern items[i:] matches tgt[j:], in the order a backtracking matcher prefers them
+    (greedy quantifiers: most repetitions first); yields environments"""
+    if i == len(items):
+        if j == len(tgt):
+            yield env
+        return
+    it = items[i]
+    if 'q' in it:
+        sub = it['sub'] if isinstance(it['sub'], list) else [it['sub']]
+        lo = 1 if it['q'] == 'plus' else 0
+        hi = 1 if it['q'] == 'opt' else 10 ** 9
+        states = [(j, env, [])]                      # after n repetitions; a repetition consumes len(sub) elements
+        while len(states) - 1 < hi:
+            jj, e, caps = states[-1]
+            if jj + len(sub) > len(tgt):
                 break
-        if tags is None:
+            ok = True
+            for x, t in zip(sub, tgt[jj:jj + len(sub)]):
+                e = mini(x, t, e)
+                if e is None:
+                    ok = False
+                    break
+            if not ok:
+                break
+            states.append((jj + len(sub), e, caps + tgt[jj:jj + len(sub)]))
+        order = range(len(states) - 1, lo - 1, -1) if it.get('greedy', True) else range(lo, len(states))
+        for n in order:
+            jj, e, caps = states[n]
+            if it.get('tag'):
+                e = dict(e)
+                e[it['tag']] = ('q', caps)
+            yield from _match_list(items, i + 1, tgt, jj, e)
+        return
+    if j < len(tgt):
+        e = mini(it, tgt[j], env)
+        if e is not None:
+            yield from _match_list(items, i + 1, tgt, j + 1, e)
+
+
+def mini(s, node, env=None):
+    """-> environment {tag: node | ('q', [nodes])} (latest binding of a name wins) or None"""
+    env = {} if env is None else env
+    if 'backref' in s:
+        v = env.get(s['backref'])
+        return env if v is not None and not isinstance(v, tuple) and _same(v, node) else None
+    if 'and' in s:
+        for x in s['and']:
+            env = mini(x, node, env)
+            if env is None:
+                return None
+    elif 'or' in s:
+        for x in s['or']:
+            e = mini(x, node, env)
+            if e is not None:
+                env = e
+                break
+        else:
             return None
     elif 'not' in s:
-        if mini(s['not'], node) is not None:
+        if mini(s['not'], node, env) is not None:
             return None
-        tags = {}
     else:
         names = s['cls'] if isinstance(s['cls'], list) else [s['cls']]
         if not isinstance(node, ast.AST) or not isinstance(node, tuple(getattr(ast, n) for n in names)):
             return None
-        tags = {}
         for k, v in s.get('fields', {}).items():
             if not hasattr(node, k):
                 return None
             got = getattr(node, k)
             if isinstance(v, dict):
-                m = mini(v, got)
-                if m is None:
+                env = mini(v, got, env)
+                if env is None:
                     return None
-                tags.update(m)
             elif isinstance(v, list):
-                if not isinstance(got, list) or len(got) != len(v):
+                if not isinstance(got, list):
                     return None
-                for x, g in zip(v, got):
-                    m = mini(x, g)
-                    if m is None:
-                        return None
-                    tags.update(m)
+                env = next(_match_list(v, 0, got, 0, env), None)
+                if env is None:
+                    return None
             elif got != v or type(got) is not type(v):
                 return None
     if s.get('tag'):
-        tags = dict(tags)
-        tags[s['tag']] = node               # the enclosing tag names the node it wraps
-    return tags
+        env = dict(env)
+        env[s['tag']] = node                # the enclosing tag names the node it wraps
+    return env
 
 
 EXPRS = ['Name', 'Constant', 'Attribute', 'Call', 'BinOp', 'Subscript', 'List', 'Tuple', 'UnaryOp', 'IfExp']
@@ -111,8 +167,37 @@ SPECS = [
     ('or-fields', {'or': [{'cls': 'Name', 'fields': {'id': 'a'}}, {'cls': 'Attribute', 'fields': {'attr': 'p'}}, {'cls': ['Constant'], 'fields': {'value': 1}}]}, {}),
     ('and-or', {'and': [{'or': [{'cls': 'Call'}, {'cls': 'Subscript'}]}, {'not': {'cls': ['Call'], 'fields': {'args': []}}}], 'tag': 'w'}, {'w': 'E'}),
 ]
-SPECS = [x for x in SPECS if x[1] != SPECS[7][1]]          # (ctx=None constraint is not expressible identically: dropped)
+SPECS = [x for x in SPECS if x[1] != SPECS[7][1]]
+ANY = {'cls': EXPRS}
+_N, _C = {'cls': 'Name'}, {'cls': ['Constant']}
+SPECS += [
+    # quantifiers whose repetition spans several elements (greedy ones must give repetitions back), mixed with fixed elements
+    ('q-sublist', {'cls': 'List', 'fields': {'elts': [{'q': 'star', 'sub': [_N, _C], 'tag': 'lead'}, _N, _C]}}, {'lead': 'ES'}),
+    ('q-sublist', {'cls': 'List', 'fields': {'elts': [{'q': 'star', 'sub': [_N, _C], 'tag': 'lead'}, {**_N, 'tag': 'n'}]}}, {'lead': 'ES', 'n': 'E'}),
+    ('q-sublist', {'cls': 'Call', 'fields': {'func': {**_N, 'tag': 'f'}, 'args': [{'q': 'plus', 'sub': [_N, _N], 'tag': 'p'}, {'q': 'star', 'sub': _N, 'tag': 'r'}]}},
+     {'f': 'E', 'p': 'ES', 'r': 'ES'}),
+    ('q-sublist', {'cls': 'Tuple', 'fields': {'elts': [{'q': 'star', 'sub': [_N, _N], 'tag': 'a'}, {**_N, 'tag': 'm'}, {'q': 'star', 'sub': _C, 'tag': 'b'}]}},
+     {'a': 'ES', 'm': 'E', 'b': 'ES'}),
+    ('q-sublist', {'cls': 'List', 'fields': {'elts': [{'q': 'plus', 'sub': [ANY, _C], 'tag': 'g', 'greedy': False}, {'q': 'star', 'sub': ANY, 'tag': 'rest'}]}},
+     {'g': 'ES', 'rest': 'ES'}),
+    ('q-sublist', {'cls': 'List', 'fields': {'elts': [{'q': 'star', 'sub': [_N, _C, _N], 'tag': 't3'}, {'q': 'opt', 'sub': _N, 'tag': 'o'}, _C]}}, {'t3': 'ES', 'o': 'ES'}),
+    # back references while the same tag name is bound at two depths (the latest binding counts)
+    ('backref', {'cls': 'BinOp', 'fields': {'left': {**ANY, 'tag': 't'}, 'right': {'cls': 'BinOp', 'fields': {'left': {**ANY, 'tag': 't'}, 'right': {'backref': 't'}}}}}, {'t': 'E'}),
+    ('backref', {'cls': 'Call', 'fields': {'func': {**_N, 'tag': 't'}, 'args': [{**_N, 'tag': 't'}, {'backref': 't'}]}}, {'t': 'E'}),
+    ('backref', {'cls': 'List', 'fields': {'elts': [{**_N, 'tag': 't'}, {'q': 'star', 'sub': _N, 'tag': 'mid'}, {'backref': 't'}]}}, {'t': 'E', 'mid': 'ES'}),
+    ('backref', {'cls': 'Call', 'fields': {'func': {**ANY, 'tag': 't'}, 'args': [{'cls': 'Call', 'fields': {'func': {**_N, 'tag': 't'}, 'args': [{'backref': 't'}]}, 'tag': 'in_'}]}},
+     {'t': 'E', 'in_': 'E'}),
+    ('backref', {'cls': 'BinOp', 'fields': {'left': {**_N, 'tag': 'x'}, 'right': {'backref': 'x'}}, 'tag': 'x'}, {'x': 'E'}),
+]          # (ctx=None constraint is not expressible identically: dropped)
 TEMPLATES = ['log({t})', 'w({t}, 0)', '[{t}, {t}]', '{t}.q', 'log(__FST_)', 'k[{t}]']
+SLICE_TEMPLATES = ['g({t})', '[{t}, 0]', 'w(0, {t}, {t2})', '({t2}, {t})', 'log(__FST_)']
+Q_PROGRAMS = [
+    'v = [a, 1, b, 2, c, 3]\nw = [a, 1]\nu = [a, 1, b, 2]\nt = [a, 1, b]\nz = [1, a]\n',
+    'f(a, b, c, d, e)\ng(a, b)\nh(a, b, c)\nk(a)\nuse((a, b, c, 1, 2), (a, 1), (a, b, c))\n',
+    'r = [a, 1, b, 2, c]\ns = [x, 1, y, z, 2]\nq = [a, 1, b, c, 2, d, 3]\np = [a, 2, b, c, 3]\n',
+    'use(x * (y + y), x * (y + x), (a + b) * (c + c), f(f, f), g(a, a), g(g, g), h(a, b))\n',
+    'use([a, b, c, a], [a, a], [a, b], f(g(g)), f(g(f)), a + a, (a + a) * 1, b + a)\n',
+]
 PROGRAMS = [
     'class K:\n    def m(self, a, b):\n        use(a + self.y, self)\n        return self.f(a, 1, b.p)[0]\n',
     'f(a, g(b), 1)\nuse(o.p(x).q + a[0] * b[k])\n(self, a.p, "s", f())\n',
@@ -121,15 +206,40 @@ PROGRAMS = [
 ]
 
 
-def jobs(rng, n):
+def product_jobs():
+    """every quantifier / back-reference spec on every program of its family, slot in a call and in a list (deterministic)"""
     out = []
+    for shape, spec, tagkinds in SPECS:
+        if shape not in ('q-sublist', 'backref'):
+            continue
+        es = [t for t, k in tagkinds.items() if k == 'ES']
+        e1 = [t for t, k in tagkinds.items() if k == 'E']
+        for src in Q_PROGRAMS:
+            for fmt in ('g({a})', '[{a}, 0]'):
+                for tag in (es + e1)[:2]:
+                    for nested, on in ((False, 'enter'), (False, 'leave')):
+                        st = {'nested': nested, 'on': on, 'count': 0, 'loop': False, 'ctx': False}
+                        out.append({'src': src, 'shape': shape, 'cat': 'expr', 'pat': compile_spec(spec), 'spec': spec,
+                                    'placement': 'spec', 'tmpl': fmt.replace('{a}', '__FST_' + tag), 'set': st})
+    return out
+
+
+def jobs(rng, n):
+    out = product_jobs()
+    n += len(out)
     while len(out) < n:
         shape, spec, tagkinds = rng.choice(SPECS)
         tags = [t for t in tagkinds] or ['']
-        fmt = rng.choice(TEMPLATES)
-        tm = fmt.replace('{t}', '__FST_' + rng.choice(tags))
+        special = shape in ('q-sublist', 'backref')
+        es = [t for t, k in tagkinds.items() if k == 'ES']
+        if es and rng.random() < 0.8:
+            e1 = [t for t, k in tagkinds.items() if k == 'E'] or ['']
+            tm = rng.choice(SLICE_TEMPLATES).replace('{t2}', '__FST_' + rng.choice(es + e1)).replace('{t}', '__FST_' + rng.choice(es))
+        else:
+            e1 = [t for t, k in tagkinds.items() if k == 'E'] or ['']
+            tm = rng.choice(TEMPLATES).replace('{t}', '__FST_' + rng.choice(e1))
         st = {'nested': rng.random() < 0.4, 'on': rng.choice(['enter', 'enter', 'leave']), 'count': rng.choice([0, 0, 0, 2]),
               'loop': False, 'ctx': False}
-        out.append({'src': rng.choice(PROGRAMS), 'shape': shape, 'cat': 'expr', 'pat': compile_spec(spec), 'spec': spec,
+        out.append({'src': rng.choice(Q_PROGRAMS if special else PROGRAMS), 'shape': shape, 'cat': 'expr', 'pat': compile_spec(spec), 'spec': spec,
                     'placement': 'spec', 'tmpl': tm, 'set': st})
     return out
